@@ -205,6 +205,10 @@ func newEngine(ld *loaded, o workerOpts) *Engine {
 	return e
 }
 
+// stdInit: standard-library packages whose (small) initialisers are interpreted,
+// because their package-level tables are read by code under analysis.
+var stdInit = map[string]bool{"unicode/utf8": true, "unicode/utf16": true, "math/bits": true}
+
 // registerVfModel redirects library functions to their Go-source models.
 func registerVfModel(e *Engine) {
 	mp := e.prog.ImportedPackage(repoMod + "/internal/vfmodel")
@@ -217,6 +221,7 @@ func registerVfModel(e *Engine) {
 		"strings.Contains": "Contains", "strings.LastIndex": "LastIndex", "strings.Split": "Split", "strings.TrimSpace": "TrimSpace",
 		"strings.Replace": "Replace", "strings.ReplaceAll": "ReplaceAll", "strings.TrimLeft": "TrimLeft", "strings.TrimRight": "TrimRight", "strings.Trim": "Trim",
 		"strconv.Itoa": "Itoa", "strconv.FormatInt": "FormatInt", "strconv.FormatUint": "FormatUint", "strconv.Quote": "Quote",
+		"(*sync.Pool).Get": "PoolGet", "(*sync.Pool).Put": "PoolPut",
 		"sort.Sort": "Sort", "sort.Slice": "Slice", "sort.Strings": "Strings", "sort.Stable": "Sort", "sort.SliceStable": "Slice",
 	}
 	for real, model := range red {
@@ -265,6 +270,19 @@ func registerVfModel(e *Engine) {
 		st.hset(sl.obj, ArrayVal{ne})
 		return nil
 	}
+	x["vfPick"] = func(e *Engine, st *State, fr *Frame, in ssa.CallInstruction, a []Val) Val {
+		n := a[0].(*Term)
+		if !n.IsConst() {
+			abort("unsupported", "vfPick with a symbolic bound")
+		}
+		if n.c <= 1 {
+			return ConstBV(64, 0)
+		}
+		site := fmt.Sprintf("pick#%d", st.siteCtr)
+		c := e.choose(st, site, int(n.c))
+		st.siteCtr++
+		return ConstBV(64, uint64(c))
+	}
 	x["vfSortOblig"] = func(e *Engine, st *State, fr *Frame, in ssa.CallInstruction, a []Val) Val {
 		e.doAssert(st, e.propOfEntry()+".sort-comparator."+argStr(a, 0), a[1].(*Term))
 		return nil
@@ -299,8 +317,43 @@ func runWorker(o workerOpts) *WorkerResult {
 	// package initialisation
 	for _, p := range ld.prog.AllPackages() {
 		path := p.Pkg.Path()
-		if strings.HasPrefix(path, repoMod) || strings.HasPrefix(path, "github.com/llir/ll") || strings.HasPrefix(path, "github.com/mewmew/float") {
+		if strings.HasPrefix(path, repoMod) || strings.HasPrefix(path, "github.com/llir/ll") || strings.HasPrefix(path, "github.com/mewmew/float") || stdInit[path] {
 			e.initPkgs[path] = true
+		}
+	}
+	// globals that the initialiser of a package whose init is *not* interpreted
+	// would have set: reading one is unsupported (never silently zero)
+	e.initSet = map[string]bool{}
+	for _, p := range ld.prog.AllPackages() {
+		if e.initPkgs[p.Pkg.Path()] {
+			continue
+		}
+		ini := p.Func("init")
+		if ini == nil {
+			continue
+		}
+		for _, b := range ini.Blocks {
+			for _, in := range b.Instrs {
+				st, ok := in.(*ssa.Store)
+				if !ok {
+					continue
+				}
+				a := st.Addr
+				for {
+					switch x := a.(type) {
+					case *ssa.IndexAddr:
+						a = x.X
+						continue
+					case *ssa.FieldAddr:
+						a = x.X
+						continue
+					}
+					break
+				}
+				if g, ok := a.(*ssa.Global); ok {
+					e.initSet[g.String()] = true
+				}
+			}
 		}
 	}
 	t1 := time.Now()
